@@ -80,4 +80,36 @@ theorem read_u64v_be_length {n : Nat} {buf : Bytes} {w : List UInt64} (h : Impl.
   · cases h
   · cases h; rw [wordsBE64_length]; omega
 
+/-- a list of length 25 is `[a0, …, a24]` -/
+theorem list25 {α : Type} (r : List α) (h : r.length = 25) :
+    ∃ a0 a1 a2 a3 a4 a5 a6 a7 a8 a9 a10 a11 a12 a13 a14 a15 a16 a17 a18 a19 a20 a21 a22 a23 a24,
+      r = [a0, a1, a2, a3, a4, a5, a6, a7, a8, a9, a10, a11, a12, a13, a14, a15, a16, a17, a18, a19, a20, a21, a22, a23, a24] := by
+  rcases r with _ | ⟨a0, _ | ⟨a1, _ | ⟨a2, _ | ⟨a3, _ | ⟨a4, _ | ⟨a5, _ | ⟨a6, _ | ⟨a7, _ | ⟨a8, _ | ⟨a9, _ | ⟨a10, _ | ⟨a11, _ | ⟨a12, _ | ⟨a13, _ | ⟨a14, _ | ⟨a15, _ | ⟨a16, _ | ⟨a17, _ | ⟨a18, _ | ⟨a19, _ | ⟨a20, _ | ⟨a21, _ | ⟨a22, _ | ⟨a23, _ | ⟨a24, _ | ⟨a25, t⟩⟩⟩⟩⟩⟩⟩⟩⟩⟩⟩⟩⟩⟩⟩⟩⟩⟩⟩⟩⟩⟩⟩⟩⟩⟩
+  all_goals first
+    | exact ⟨a0, a1, a2, a3, a4, a5, a6, a7, a8, a9, a10, a11, a12, a13, a14, a15, a16, a17, a18, a19, a20, a21, a22, a23, a24, rfl⟩
+    | (simp at h)
+    | (simp at h; omega)
+
+/-- an array of size 25 is `#[a0, …, a24]` -/
+theorem array25 {α : Type} (r : Array α) (h : r.size = 25) :
+    ∃ a0 a1 a2 a3 a4 a5 a6 a7 a8 a9 a10 a11 a12 a13 a14 a15 a16 a17 a18 a19 a20 a21 a22 a23 a24,
+      r = #[a0, a1, a2, a3, a4, a5, a6, a7, a8, a9, a10, a11, a12, a13, a14, a15, a16, a17, a18, a19, a20, a21, a22, a23, a24] := by
+  obtain ⟨a0, a1, a2, a3, a4, a5, a6, a7, a8, a9, a10, a11, a12, a13, a14, a15, a16, a17, a18, a19, a20, a21, a22, a23, a24, hl⟩ := list25 r.toList (by simpa using h)
+  exact ⟨a0, a1, a2, a3, a4, a5, a6, a7, a8, a9, a10, a11, a12, a13, a14, a15, a16, a17, a18, a19, a20, a21, a22, a23, a24, by cases r; simp_all⟩
+
+/-- a list of length 8 is `[a0, …, a7]` -/
+theorem list8 {α : Type} (r : List α) (h : r.length = 8) :
+    ∃ a0 a1 a2 a3 a4 a5 a6 a7, r = [a0, a1, a2, a3, a4, a5, a6, a7] := by
+  rcases r with _ | ⟨a0, _ | ⟨a1, _ | ⟨a2, _ | ⟨a3, _ | ⟨a4, _ | ⟨a5, _ | ⟨a6, _ | ⟨a7, _ | ⟨a8, t⟩⟩⟩⟩⟩⟩⟩⟩⟩
+  all_goals first
+    | exact ⟨a0, a1, a2, a3, a4, a5, a6, a7, rfl⟩
+    | (simp at h)
+    | (simp at h; omega)
+
+/-- a vector of size 8 is `#v[a0, …, a7]` -/
+theorem vec8 {α : Type} (v : Vector α 8) : ∃ a0 a1 a2 a3 a4 a5 a6 a7, v = #v[a0, a1, a2, a3, a4, a5, a6, a7] := by
+  obtain ⟨⟨l⟩, hl⟩ := v
+  obtain ⟨a0, a1, a2, a3, a4, a5, a6, a7, rfl⟩ := list8 l (by simpa using hl)
+  exact ⟨a0, a1, a2, a3, a4, a5, a6, a7, rfl⟩
+
 end Cx.Proofs.KernelTieWords
